@@ -262,7 +262,10 @@ def h_array(cfg):
         # symbolic index
         ii = [e.sym(f"i{k}") for k in range(nd)]
         inrange = z3.And([z3.And(i.e >= 0, i.e < d) for i, d in zip(ii, sh)])
-        want = base.e + sp["data_offset"] + sum(i.e * s for i, s in zip(ii, sp["strides"]))
+        # an index in -d..-1 may be refused (the pinned library does) or count from the end like Python sequences;
+        # anything else accepted would address memory that is not the element
+        wrap_ok = z3.And([z3.And(i.e >= -d, i.e < d) for i, d in zip(ii, sh)])
+        want = base.e + sp["data_offset"] + sum(z3.If(i.e < 0, i.e + d, i.e) * s for i, d, s in zip(ii, sh, sp["strides"]))
         key = tuple(ii)
         for who, obj in (("handle", h), ("view", v)):
             nstore = len(b.payloads)
@@ -280,7 +283,7 @@ def h_array(cfg):
                 continue
             off = T(off)
             if pid == "C11":
-                e.prove(inrange, f"C11 {who}: an index outside the shape is refused (IndexError)", det)
+                e.prove(wrap_ok, f"C11 {who}: an index outside the shape is refused (IndexError)", det)
                 # item assignment and reading take the same decision
                 for op in ("get", "set"):
                     n0 = len(b.payloads)
@@ -289,7 +292,7 @@ def h_array(cfg):
                             obj[key]
                         else:
                             obj[key] = 1
-                        e.prove(inrange, f"C11 {who}: item {op} with an index outside the shape is refused", det)
+                        e.prove(wrap_ok, f"C11 {who}: item {op} with an index outside the shape is refused", det)
                     except IndexError:
                         e.prove(z3.Not(inrange), f"C11 {who}: item {op} refuses only out-of-shape indices", det)
                         e.prove(z3.BoolVal(len(b.payloads) == n0), f"C11 {who}: a refused item {op} writes nothing", det)
